@@ -141,7 +141,8 @@ def parseAtom : Nat → Bool → List Tok → Res
             | .fuel => .fuel
             | .ok arg rest => closeParen neg (Ast.un (opHead c)) arg rest
           else .ok errNode r
-      else .ok (.leaf (leafHead c neg)) r
+      else if c.ty = .number ∨ c.ty = .ecl_expr then .ok (.leaf (leafHead c neg)) r
+      else .ok errNode ts      -- an operator, parenthesis or bracket where an operand is required
 
 /-- `UDQParser::parse_pow` (exponent parsed with `parse_pow`: right-associative). -/
 def parsePow : Nat → List Tok → Res
@@ -336,11 +337,10 @@ def renderBody : Ast → List Tok
 def renderAt (lvl : Nat) (e : Ast) : List Tok := wrap lvl e (renderBody e)
 def render (e : Ast) : List Tok := renderAt 0 e
 
-/-- ASTs of documented expressions: leaves are values (not operators, parentheses or function
-names), unary nodes are function calls, binary nodes carry a binary operator; operator and
+/-- ASTs of documented expressions: leaves are numbers or quantity names, unary nodes are function calls, binary nodes carry a binary operator; operator and
 function nodes have no selector. -/
 def WF : Ast → Prop
-  | .leaf h => cls h.ty = .other
+  | .leaf h => h.ty = .number ∨ h.ty = .ecl_expr
   | .un h a => cls h.ty = .func ∧ h.sel = [] ∧ WF a
   | .bin h l r =>
     (cls h.ty = .pow ∨ cls h.ty = .mul ∨ cls h.ty = .div ∨ cls h.ty = .add ∨ cls h.ty = .sub
